@@ -1,5 +1,6 @@
 import DynasmVerif.Model.Machine
 import DynasmVerif.Props.C07
+import DynasmVerif.Proofs.Patch
 
 /-!
 # C16 — all assembler front-ends agree, and a reused assembler behaves like a fresh one
@@ -24,9 +25,13 @@ theorem commit_ok_drains (a a' : VecAsm) (h : a.commit = (a', .ok)) :
     generalize hps : patchStatics a.core.labels 0 a.base a.core.statics a.ops [] = ps at h
     obtain ⟨b1, m1, o1⟩ := ps
     cases o1 <;> simp at h
-    · obtain ⟨h1, h2⟩ := h
+    · generalize hpd : patchDynamics a.core.labels 0 a.base a.core.dynamics b1 m1 = pd at h
+      obtain ⟨b2, m2, o2⟩ := pd
+      obtain ⟨h1, h2⟩ := h
       subst h1
-      simp [he]
+      simp only at h2
+      subst h2
+      simp [DynasmVerif.Patch.dynamicsRest_of_ok _ _ _ _ _ _ _ _ hpd]
 
 /-- After a successful `take` (or `drain`) the assembler is literally in the state `VecAssembler::new(base)`:
 no label, generation counter, dynamic id, pending reference or error survives. -/
